@@ -12,4 +12,8 @@ sys.path.insert(0, '.')
 from mirsym.hx import dump_mir
 print('mir:', dump_mir())
 PY
+
+# warm the Kani build cache (engine K, used by C16)
+(cd kani && cp /repo/Cargo.lock Cargo.lock && cargo kani --target-dir $PWD/../.cache/kani-target --harness bound_new_accepts_exactly_valid --output-format terse > ../.cache/kani-setup.log 2>&1 || true)
+echo kani warm: $(grep -c SUCCESSFUL .cache/kani-setup.log)
 echo setup ok
